@@ -116,6 +116,7 @@ def run(ctx):
         _seqarity(ctx, cfg, prog, mod)
         _readfinite(ctx, cfg, prog, mod)
         _refuse(ctx, cfg, prog)
+        _keyowned(ctx, cfg, prog)
         _gates(ctx, cfg, prog, mod)
     return ctx.finish(EXPLANATION)
 
@@ -135,6 +136,31 @@ REFUSE_TABLE = {
     'Vertex': (2, 'a nil / malformed vertex UUID; a point that fails validation'),
     'Point': (1, 'a coordinate token that is neither a number nor one of the non-finite spellings'),
 }
+
+
+def _keyowned(ctx, cfg, prog):
+    """KEYOWNED (after fix F28): a hand-written visitor that reads its field names as `&str` works only with
+    deserialisers that can lend the key out of the input (`from_str`, `from_slice`); `serde_json::from_reader`,
+    `from_value` and every non-borrowing format fail on what the library serialised.  Every `MapAccess::next_key` /
+    `next_entry` / `next_key_seed` call in a crate visitor produces an owned key type (String, a field enum, Cow)."""
+    ctx.rule('KEYOWNED', 'hand-written map visitors read their keys as owned values, not as borrowed &str')
+    n = 0
+    for q, b in sorted(prog.bodies.items()):
+        if not b.file.startswith('src/') or '::tests::' in q:
+            continue
+        for bb, t in b.calls():
+            name = t.callee or t.resolved or ''
+            if not (name.endswith('MapAccess::next_key') or name.endswith('MapAccess::next_entry')):
+                continue
+            ty = b.locals[t.dest.local] if t.dest is not None and t.dest.is_local() else ''
+            n += 1
+            borrowed = 'Option<&' in ty or 'Option<(&' in ty
+            ctx.ob('KEYOWNED', '%s' % (b.root or q), cfg, not borrowed,
+                   'keys are read as %s' % ty.split('Option<', 1)[-1].split(',')[0][:60] if not borrowed else
+                   'keys are read as a borrowed string (%s): deserialisers that cannot lend out &str (from_reader, from_value) '
+                   'refuse every serialised triangulation with "expected a borrowed string"' % ty.split('Option<', 1)[-1].split('>')[0],
+                   site='%s:%d' % (b.file, t.line))
+    ctx.floor('MapAccess key reads in crate visitors', 2, n, cfg)
 
 
 def _refuse(ctx, cfg, prog):
